@@ -197,6 +197,46 @@ def gen_shard(stats: Stats, shard_i, nshards, seed, tier):
             shutil.rmtree(d, ignore_errors=True)
 
 
+@st.composite
+def judge_patterns(draw):
+    b = streams.Builder(draw, CFG)
+    out = []
+    for _ in range(draw(st.integers(20, 40))):
+        p = b.collision_pattern() if draw(st.integers(0, 4)) == 0 else gens.draw_pattern(draw, CFG, draw(st.integers(1, 4)))
+        if draw(st.integers(0, 3)) == 0:
+            p = gens.draw_subst(draw, CFG, 2)
+        out.append(p)
+    return out
+
+
+def judge_shard(stats: Stats, shard_i, nshards, seed, tier):
+    """The documented judgements (e_fresh, s_fresh, positive, negative) of generated meta-patterns vs the checker's."""
+    n = {'quick': 25, 'thorough': 800}[tier]
+    pats = []
+    common.run_given(Stats(), seed, n, judge_patterns(), lambda ps, st_: pats.extend(ps), shrink=False)
+    pats = [p for p in pats if R.well_formed(p)]
+    lines = rustharness.run_batch([(M.emit(p), b'', b'') for p in pats], mode=2)
+    names = ('e_fresh', 's_fresh', 'positive', 'negative')
+    fns = (R.e_fresh, R.s_fresh, R.positive, R.negative)
+    for p, line in zip(pats, lines):
+        interesting = p[0] in ('es', 'ss') or bool(R.metavars(p))
+        stats.case(('judge', p), interesting, ['judge'] + (['judge-subst'] if 'es' in repr(p) or 'ss' in repr(p) else []),
+                   {'part': 'judge', 'pattern': R.show(p)} if len(stats.samples) < 2 else None)
+        if not line.startswith('J '):
+            stats.violation(Violation('[judge] the checker refuses to construct the documented-well-formed pattern %s' % R.show(p),
+                                      {'part': 'judge', 'gamma': M.emit(p).hex(), 'claim': '', 'proof': ''}, 'judge-construct'))
+            return
+        bits = line.split(' |P ')[0].split()[1:]
+        for x in range(4):
+            for j, (nm, fn) in enumerate(zip(names, fns)):
+                want = fn(p, x)
+                got = bits[x][j] == '1'
+                if want != got:
+                    stats.violation(Violation('[judge] %s(%s, %d): checker says %s, the documented rule says %s' % (nm, R.show(p), x, got, want),
+                                              {'part': 'judge', 'gamma': M.emit(p).hex(), 'claim': '', 'proof': '', 'judgement': nm, 'var': x}, 'judge-' + nm))
+                    return
+
+
 def minimise(v):
     """ddmin-style byte deletion on a violating triple (the mismatch must persist)."""
     case = v['replay']
@@ -261,7 +301,9 @@ def run(tier, t0):
         common.run_sharded(stats, 'checks.c05', 'short_shard', common.NPROC, tier)
     if not stats.violations:
         common.run_sharded(stats, 'checks.c05', 'gen_shard', common.NPROC, tier)
-    if stats.violations:
+    if not stats.violations:
+        common.run_sharded(stats, 'checks.c05', 'judge_shard', common.NPROC, tier)
+    if stats.violations and stats.violations[0]['replay'].get('part') != 'judge':
         stats.violations = [minimise(stats.violations[0])] + stats.violations[1:3]
     return common.finish(PROP, tier, stats, RULE, ASSUME, t0)
 
@@ -269,6 +311,19 @@ def run(tier, t0):
 def replay(case):
     t = (bytes.fromhex(case['gamma']), bytes.fromhex(case['claim']), bytes.fromhex(case['proof']))
     st_ = Stats()
+    if case.get('part') == 'judge':
+        line = rustharness.run_batch([t], mode=2)[0]
+        res = M.run_prefix(t[0], b'', b'')
+        p = res[1].stack[-1][1]
+        names = ('e_fresh', 's_fresh', 'positive', 'negative'); fns = (R.e_fresh, R.s_fresh, R.positive, R.negative)
+        bits = line.split(' |P ')[0].split()[1:] if line.startswith('J ') else None
+        if bits is None:
+            raise Violation('checker refuses to construct %s' % R.show(p), case, 'judge-construct')
+        for x in range(4):
+            for j, (nm, fn) in enumerate(zip(names, fns)):
+                if fn(p, x) != (bits[x][j] == '1'):
+                    raise Violation('%s(%s, %d): checker %s, documented %s' % (nm, R.show(p), x, bits[x][j] == '1', fn(p, x)), case, 'judge-' + nm)
+        return
     if case.get('part') == 'binary':
         d = tempfile.mkdtemp(prefix='c05r_')
         try:
